@@ -8,6 +8,8 @@ QUICK = [
                     "buslost=1", "win=03", "longtoany=1"]),
     ("chunk2-faults", ["chunk2=1", "req=0:3115b5090100", "submit=1", "qq=", "nn=0", "snn=0", "echofaults=0", "readerr=1",
                        "buslost=1", "win=03"]),
+    ("enh-restart-werr", ["enhanced=1", "req=3:3115b5090100:2", "submit=1", "qq=", "nn=0", "snn=0", "echofaults=0", "writeerr=1", "win=03", "longtoany=1",
+                          "buslost=1"]),
     ("restart", ["req=2:3115b5090100:2", "submit=1", "qq=", "nn=0", "snn=0", "echofaults=0", "win=03", "buslost=1", "longtoany=1"]),
 ]
 THOROUGH = QUICK + [
